@@ -5,7 +5,7 @@ import os, importlib, traceback
 from lib import common
 from .py2lean import Unsupported
 
-GENERATORS = ["gen_util"]
+GENERATORS = sorted(f[:-3] for f in os.listdir(os.path.dirname(os.path.abspath(__file__))) if f.startswith("gen_") and f.endswith(".py"))
 
 
 def regenerate(ctx=None, only=None):
@@ -35,6 +35,8 @@ def regenerate(ctx=None, only=None):
                 with open(path, "w") as f:
                     f.write(text)
                 changed.append(name)
+    from lib import roots
+    roots.write_roots()
     if ctx is not None:
         ctx.cov["generated_changed"] = changed
     return changed
